@@ -79,7 +79,12 @@ pub(super) fn observe(object_tree: &ObjectTree, object_code_maps: &[ObjectCodeMa
             );
             for (cls, (_, props)) in code_map.all_attached_properties() {
                 let mut path = vec![cls.qualified_cxx_name().into_owned()];
-                walk_properties(ObservedCodeKind::AttachedProperty, props, &mut path, &mut emit);
+                walk_properties(
+                    ObservedCodeKind::AttachedProperty,
+                    props,
+                    &mut path,
+                    &mut emit,
+                );
             }
             for c in code_map.callbacks() {
                 let path = [c.desc().name().to_owned()];
